@@ -5,7 +5,12 @@ restored from its mnemonic, a wallet removal) once undisturbed and then with the
 abandoned right after commit k (harness/internal/dbwrap), reopened on the same directory while the
 node has moved on; final reports are compared with the undisturbed twin, and every run (twin and
 crashed) is replayed on the extracted Ledger model (ocaml/C01 driver) and checked against the
-chain specification."""
+chain specification.
+Import-only family (harness/internal/cfsim/importonly.go): no READY wallet in the database at the crash —
+the only wallet is being restored (crash right after ImportWallet / between two rescan batches of 1000
+heights), the node abandons blocks below or above the rescan cursor and grows (by a few blocks, or by more
+than the 2000-block margin of Start's fast-forward) while the wallet is down; restart, the rescan resumes
+and finishes; compared with the twin that never stopped, the model and the chain specification."""
 import json
 import os
 import re
@@ -20,8 +25,48 @@ TRUSTED = [
     "deterministic entropy: crypto/rand.Reader is replaced during CreateWallet so that every replay creates the same wallet",
     "hooks (build tag verif): masswallet/hooks_verif.go accessors",
     "environment, not verified: mass-core (chain DB, script templates), goleveldb; a crash INSIDE leveldb.Write relies on LevelDB's journal (batch atomicity) and is not enumerated",
-    "modelled rather than verified: NtfnsHandler.Start (catch-up, fast-forward), processConnectedBlock, worker task resumption at record level (coq/Ledger/Crash.v)",
+    "modelled rather than verified: NtfnsHandler.Start (catch-up, fast-forward, the two repairs), processConnectedBlock, worker task resumption at record level (coq/Ledger/Crash.v, Crash3.v; with a restore in progress: coq/Ledger/ResumeFF.v)",
 ]
+
+
+def replay_model(exe, model_in, workdir, jobs):
+    """Runs the extracted model on the recorded runs, split over `jobs` driver processes."""
+    import subprocess
+    sections, cur = [], []
+    with open(model_in) as f:
+        for l in f:
+            if l.startswith("H ") and cur:
+                sections.append(cur)
+                cur = []
+            cur.append(l)
+    if cur:
+        sections.append(cur)
+    jobs = max(1, min(jobs, len(sections)))
+    buckets = [[0, []] for _ in range(jobs)]
+    for sec in sorted(sections, key=len, reverse=True):
+        b = min(buckets, key=lambda x: x[0])
+        b[0] += len(sec) * len(sec)      # the cost of a run grows faster than its length
+        b[1].append(sec)
+    procs = []
+    for i, (_, secs) in enumerate(buckets):
+        path = os.path.join(workdir, "model-%d.txt" % i)
+        with open(path, "w") as f:
+            for sec in secs:
+                f.writelines(sec)
+        # (outputs go to files: a full pipe would park a driver until its turn to be read)
+        procs.append((subprocess.Popen([exe], stdin=open(path), stdout=open(path + ".out", "w"), stderr=open(path + ".err", "w")), path))
+    rc, outs, errs = 0, [], []
+    for pr, path in procs:
+        try:
+            pr.wait(timeout=3000)
+        except subprocess.TimeoutExpired:
+            pr.kill()
+            rc = 124
+        outs.append(open(path + ".out", errors="replace").read())
+        errs.append(open(path + ".err", errors="replace").read())
+        if pr.returncode not in (0, None) and rc == 0:
+            rc = pr.returncode
+    return rc, "".join(outs), "".join(errs)
 
 
 def main(tier, replay=None):
@@ -35,7 +80,11 @@ def main(tier, replay=None):
     if exe is None:
         return c.finish(TRUSTED, no_input_break="extraction/OCaml build of the Ledger model failed: " + err[-1500:])
 
-    n = 40 if tier == "quick" else 400
+    # every sixth history (index % 6 == 4) belongs to the import-only family of cmd/c06 (the only wallet
+    # of the database is being restored when the process stops; the node is reorganised below / above the
+    # rescan cursor and grows while the wallet is down); with 48 histories the quick tier has 40 ordinary
+    # ones as before, 7 import-only ones of ~1100 blocks and one of ~3100 blocks (fast-forward of Start)
+    n = 48 if tier == "quick" else 432     # thorough: 408 ordinary + 24 import-only (5 of them long)
 
     if c.escalated:   # a modelled Go function changed since the pin (c.drift): look harder, no verdict from drift alone
 
@@ -72,6 +121,7 @@ def main(tier, replay=None):
     traces = []
     foreign = {}
     scripts = {}
+    io_shapes = {}     # import-only family: shape -> histories
     harness_err = []
     with open(model_in, "w") as mf:
         for l in V.read_lines(out):
@@ -81,6 +131,11 @@ def main(tier, replay=None):
                 runs.append(l)
             elif l.startswith("V "):
                 traces.append(l)
+            elif l.startswith("S ") and " family=import-only " in l:
+                m = re.search(r"shape=(\S+) ff=(\S+) quiet-branch=(\S+)", l)
+                if m:
+                    k = m.group(1) + ("+grown-past-fast-forward-margin" if m.group(2) == "true" else "") + ("+quiet-branch" if m.group(3) == "true" else "")
+                    io_shapes[k] = io_shapes.get(k, 0) + 1
             elif l.startswith("S "):
                 f = l.split()
                 scripts[int(f[1])] = l
@@ -88,7 +143,10 @@ def main(tier, replay=None):
                 foreign[f[1]] = m.group(1) if m else "0"
             elif l.startswith("X "):
                 harness_err.append(l)
-    rc, mo, me = V.sh("%s < %s" % (exe, model_in), timeout=3000)
+    # the model replays every run (twin and crashed) block by block; the long histories (1000-3300 blocks,
+    # several runs each) dominate, so the runs are dealt out to parallel driver processes (a run = the lines
+    # from its "H <id>" line on; the driver starts afresh at every H line), longest first
+    rc, mo, me = replay_model(exe, model_in, c.workdir, min(V.NCPU, int(os.environ.get("VERIF_JOBS", "8"))))
     if rc != 0:
         return c.finish(TRUSTED, no_input_break="model driver failed: " + me[-1500:])
 
@@ -162,13 +220,16 @@ def main(tier, replay=None):
         "distinct_nontrivial": len(distinct),
         "rule": "one evaluation = one crashed replay of a generated history (script of 25-70 operations: 1-4 wallets created, addresses, blocks with random "
                 "transactions, reorgs of depth 1-3, lagging announcements, one wallet restored from its mnemonic, one wallet removed; plus long histories "
-                "reaching the 1000-height import batch and the 2000-block fast-forward of Start): crash right after commit k (sampled in the quick tier, every "
+                "reaching the 1000-height import batch and the 2000-block fast-forward of Start; plus the import-only family: the only wallet of the database is "
+                "being restored, every commit of the restore and of its rescan batches is a crash point, the node is reorganised below/above the rescan cursor and "
+                "grows by a few or by more than 2000 blocks while the wallet is down): crash right after commit k (sampled in the quick tier, every "
                 "k in the thorough tier; 25% of the runs crash again after 1-6 further commits, some a third time), the node performs 0-3 further chain "
                 "operations while the wallet is down, reopen on the same directory, remaining operations, final snapshot compared with the undisturbed twin. "
                 "distinct_nontrivial = distinct (history, crash contexts) pairs among runs in which a crash happened. " + stats,
         "histories": len(scripts),
         "crashed_runs": ncrash,
         "crash_contexts": contexts,
+        "import_only_histories_by_shape": io_shapes,
         "divergences": ndiv,
         "model_queries": nq, "quiescent_queries_checked_against_spec": nquiet, "announcements_checked": nproc,
         "samples": [runs[:6]],
